@@ -79,6 +79,9 @@ Definition dec_entry2 (d : data) : option (entry * entry) :=
   | _ => None
   end.
 
+(* the plain four-field form (used by the C08/C10/C13/C18 codecs) *)
+Definition dec_entry (d : data) : option entry := option_map fst (dec_entry2 d).
+
 Definition enc_path (p : path) : data := of_list DStr p.
 Definition enc_mval (v : mval) : data :=
   match v with VE => DStr "E" | VI z => DInt z | VP a n => DList [DStr "P"; of_bool a; enc_path n] end.
